@@ -9,6 +9,30 @@ CHECKS = {
    text="Every public operation of circom_algebra::modular_arithmetic is compared with an independent reference (u128 for small primes, BigUint for the real primes) written from the Circom operator documentation. Small prime fields are enumerated completely (all operand pairs, all 23 operations), the three real primes are sampled at boundary values and at random, and shift counts too large to evaluate in-process run in a subprocess under RLIMIT_CPU/RLIMIT_AS so that an unbounded computation is observed as a violation. Exhaustive on small fields, sampling on the real ones: 'held on everything explored', not a proof.",
    note="Trusts the reference semantics in harness/src/field.rs (cross-checked u128 vs BigUint at start-up) and num-bigint-dig for the big reference; operands are canonical field elements; an error result is accepted only for zero divisors and for shift counts above the bit size.",
    design="DESIGN.md §3 C16"),
+ "C10": dict(
+   level="exploration",
+   technique="model-based testing: a reference lexical scope resolver run on the generator's own AST is compared with the (name, suffix[, version]) identities in the pre-SSA and SSA CFG of generated definitions (proptest tapes, shrinking); CS0001/CS0002 reports compared with the generated shadowing declarations, in-process and through the real binary",
+   text="Definitions with tiny colliding name pools (x, x_0, x_1, …), redeclarations in nested and sibling scopes and in `for` headers, parameters redeclared as locals. The relation 'same IR variable' over all occurrences (located by source span) must equal 'same declaration according to lexical scoping' in both directions, before and after SSA; every SSA read must have a defining statement with the same (name, suffix, version); shadowing warnings must be in bijection with the generated shadowing declarations with exact primary/secondary ranges, and the real CLI must display them at the right line:col; repeated parameters must be reported (in-process and displayed). Sampling with measured class coverage.",
+   note="Reference scoping rule: block scoping, parameters outermost, a declaration takes effect before its own initialiser (Circom's rule), `for` = block{init; while(cond){body; step}}. Trusts the span bookkeeping of the generator's printer.",
+   design="DESIGN.md §3 C10"),
+ "C12": dict(
+   level="exploration",
+   technique="property-based testing of a validity predicate: generated definitions (control-flow grammar, proptest tapes with shrinking) are lifted with into_cfg/into_ssa and the well-formedness invariants are evaluated through the public accessors, with reference dominators and generator-side loop nesting as oracles",
+   text="Every generated definition is lifted and the property's predicate is evaluated on the resulting graph, before and after SSA conversion: entry block, reachability, mirrored successor/predecessor sets, branch statement position and targets, successor counts, i dom j => i <= j (dominators from the C15 reference), and recorded loop depth = number of generated loop bodies containing the block's statements (empty blocks located by their own meta). Sampling; shapes measured in the evidence histogram.",
+   note="Generator covers the constructs named in the quantifier; loop-depth reference treats a `for` step as inside and a loop condition as outside the loop.",
+   design="DESIGN.md §3 C12"),
+ "C13": dict(
+   level="translation_validation",
+   technique="translation validation by trace comparison on generated programs: structured walk of the generator AST vs walk of the lifted CFG under shared generated decision sequences (proptest tapes, shrinking), statements compared by span, kind, target and full expression structure",
+   text="For each generated definition and 16 generated decision sequences, the sequence of statements executed by the structured source (up to the first return) must be a prefix of the sequence met when walking the lifted graph from block 0 along true_index/false_index. Statements are compared structurally (not via printed strings): source span, statement kind, assigned variable, operator, and the whole expression tree; `for` and compound assignments are compared with their documented expansions.",
+   note="Loop decisions are forced to false after 6 iterations (bounded unrolling). The pre-SSA graph is compared; C14 repeats the walk on the SSA graph.",
+   design="DESIGN.md §3 C13"),
+ "C14": dict(
+   level="translation_validation",
+   technique="static audit plus dynamic path walks of the SSA CFG of generated definitions (proptest tapes, shrinking) against reference dominators and a last-assigned-version model maintained along each generated path",
+   text="After into_ssa: single definition per versioned local, phi placement, dominance of uses by definitions and of phi arguments over an incoming edge (reference dominators), declarations cover every version, signals/components unversioned. Along 16 generated paths per definition the harness tracks the version last assigned to each variable and requires every traversed phi to list it and every read to name it, while the statement sequence is kept in lock step with the structured source walk (so the read sees the same source assignment).",
+   note="Definitions whose conversion fails are skipped (counted). Reads are generated only where the variable is definitely assigned (known class F13 excluded by construction).",
+   design="DESIGN.md §3 C14"),
  "C15": dict(
    level="exploration",
    technique="differential testing of DominatorTree::new against a path-definition reference: exhaustive enumeration of all rooted digraphs with <= 5 nodes plus tape-generated random graphs up to 40 nodes (proptest, shrinking)",
